@@ -9,6 +9,7 @@ import collections
 import hashlib
 import io
 import json
+import numpy as np
 import os
 import pathlib
 import random
@@ -166,6 +167,7 @@ def run_history(root, hist, fmt="fb", eps=2, real_processes=False):
     from sedpack.io import Dataset
     d = C.mk_dataset(root, fmt, "", eps=eps)
     expected = collections.defaultdict(list)
+    pending = {}
     nxt = [0]
 
     def fresh(n):
@@ -175,6 +177,13 @@ def run_history(root, hist, fmt="fb", eps=2, real_processes=False):
     for k, s in enumerate(hist):
         if s["reopen"]:
             d = Dataset(root)
+        if s["kind"] != "aborted":
+            touched = set(s.get("counts", {}))
+            for w in s.get("writers", []):
+                touched |= set(w.get("counts", w) if isinstance(w, dict) else ())
+            for sp in list(pending):
+                if sp in touched:
+                    expected[sp].extend(pending.pop(sp))
         try:
             if s["kind"] == "multi":
                 groups = []
@@ -187,6 +196,24 @@ def run_history(root, hist, fmt="fb", eps=2, real_processes=False):
                 if res != [sum(len(v) for v in g.values()) for g in groups]:
                     return [f"multi-writer results {res} not in argument "
                             f"order"], k
+            elif s["kind"] == "aborted":
+                # a writer that is killed before DatasetFiller.__exit__: the
+                # shards it closed are on disk and in its directory's list,
+                # the dataset description has not heard of them yet.  They
+                # become part of the dataset with the next session that
+                # merges this split (the session after this one must write
+                # the same split).
+                from sedpack.io.dataset_filler import DatasetFiller
+                f = DatasetFiller(d, relative_path_from_split=Path(s["dir"]))
+                filler = f.__enter__()
+                sp, n = s["split"], s["count"]
+                ids = fresh(n)
+                for i in ids:
+                    filler.write_example(values=C.example(i), split=sp)
+                closed = (n // eps) * eps if n % eps else n - eps
+                pending.setdefault(sp, []).extend(ids[:max(0, closed)])
+                del filler, f          # no __exit__
+                continue               # nothing to audit: not a completed session
             elif s["kind"] == "deferred":
                 # fillers that do not update the dataset themselves; their
                 # infos are handed to write_config later, one call per filler
@@ -249,6 +276,12 @@ FIXED_HISTORIES = [
     [{"kind": "multi", "writers": [{"train": 2}], "reopen": False},
      {"kind": "dir", "dir": "sub", "counts": {"train": 2}, "reopen": False},
      {"kind": "root", "counts": {"train": 3}, "reopen": True}],
+    # a writer killed after closing a shard; the next session (other directory,
+    # same split) must leave every recorded checksum right
+    [{"kind": "dir", "dir": "part_a", "counts": {"train": 3}, "reopen": False},
+     {"kind": "aborted", "dir": "part_a", "split": "train", "count": 3, "reopen": True},
+     {"kind": "dir", "dir": "part_b", "counts": {"train": 2}, "reopen": True},
+     {"kind": "root", "counts": {"train": 1, "test": 1}, "reopen": False}],
     # deferred updates: two fillers on the same directory, the older (by then
     # stale) info is committed last; nested directories committed child first
     [{"kind": "deferred", "reopen": False, "order": [1, 0], "writers": [
@@ -414,6 +447,24 @@ def check_integrity(ctx):
                     if ln < n:
                         mods.append((f"truncate->{ln}", orig[:ln]))
                 mods.append(("extend", orig + b"\x00"))
+                # edits that text-mode / re-encoding readers do not see:
+                # newline conventions, a byte-order mark, trailing blanks,
+                # case of hex digits, JSON re-spacing
+                if b"\n" in orig:
+                    i0 = orig.index(b"\n")
+                    mods.append(("LF->CR", orig[:i0] + b"\r" + orig[i0 + 1:]))
+                    mods.append(("LF->CRLF", orig[:i0] + b"\r\n" + orig[i0 + 1:]))
+                    mods.append(("all LF->CRLF", orig.replace(b"\n", b"\r\n")))
+                if f.suffix == ".json":
+                    mods.append(("BOM", b"\xef\xbb\xbf" + orig))
+                    mods.append(("trailing newline", orig + b"\n"))
+                    mods.append(("leading space", b" " + orig))
+                    try:
+                        re_enc = json.dumps(json.loads(orig)).encode()
+                        if re_enc != orig:
+                            mods.append(("json re-serialised", re_enc))
+                    except Exception:  # noqa: BLE001
+                        pass
                 mods.append(("delete", None))
                 sib = [g for g in files if g != f and g.suffix == f.suffix
                        and g.read_bytes() != orig]
@@ -460,7 +511,8 @@ def check_integrity(ctx):
                     witness=accept_fail)]
     out.append(C.result(
         "every sampled modification (bit flips, truncations, extension, "
-        "deletion, sibling swap, rollback) of every shard / list file, and of "
+        "newline / BOM / re-serialisation edits, deletion, sibling swap, "
+        "rollback) of every shard / list file, and of "
         "the description with expected checksums, makes check() raise",
         not undetected, function="DatasetWriting.check", evaluations=n_eval,
         witness=undetected[:5] or None,
@@ -789,6 +841,35 @@ def check_digests(ctx):
                     walk(c)
             for sli in info["splits"].values():
                 walk(sli)
+            # metadata files whose character count and byte count differ
+            # (non-ASCII text) and straddle a multiple of the read buffer:
+            # a digest of a prefix / of re-encoded text would show here
+            if rec_bad is None:
+                from sedpack.io import Metadata, DatasetStructure, Attribute
+                root = tmp / "ds_utf8"
+                big = "\u0436" * 70000        # 70 000 chars, 140 000 bytes
+                ds = DatasetStructure(
+                    saved_data_description=[Attribute(name="id", dtype="int64",
+                                                      shape=())],
+                    examples_per_shard=2, shard_file_type="fb",
+                    hash_checksum_algorithms=algs)
+                d2 = Dataset.create(root, Metadata(description=big,
+                                                   custom_metadata={"k": big}),
+                                    ds)
+                with d2.filler() as fl:
+                    for i in range(3):
+                        fl.write_example(values={"id": np.int64(i)},
+                                         split="train",
+                                         custom_metadata={"note": big[:66000]})
+                info = json.loads((root / "dataset_info.json").read_text())
+                for sli in info["splits"].values():
+                    walk(sli)
+                n_eval += 1
+                got = tuple(Dataset(root).current_metadata_checksums())
+                data = (root / "dataset_info.json").read_bytes()
+                if got != tuple(_oneshot(a, data) for a in algs):
+                    rec_bad = dict(file="dataset_info.json (non-ASCII, "
+                                   f"{len(data)} bytes)")
     return [C.result("hash_checksums == independent one-shot digests "
                      "(hashlib / xxhash / sha256sum), lowercase hex, "
                      "argument order, sizes around multiples of 128 KiB",
@@ -828,11 +909,25 @@ def check_paths(ctx):
         sib.mkdir()
         shutil.copy(root / "train" / "shards_list.json",
                     sib / "shards_list.json")
+        backup = tmp / "dataset_backup"
+        shutil.copytree(root, backup)
         hostile = ["../outside/secret.fb", str(outside / "secret.fb"),
                    "train/../../outside/secret.fb",
                    "../outside/deep/secret.fb", "a/../../outside/secret.fb",
                    "./../outside/secret.fb", "train//../../outside/secret.fb",
-                   "../dataset_v2/x.fb", "/etc/hostname"]
+                   "../dataset_v2/x.fb", "/etc/hostname",
+                   # POSIX double-slash root (its first component is '//')
+                   "/" + str(outside / "secret.fb"),
+                   "//" + str(outside / "secret.fb").lstrip("/")]
+        # spellings that are plain (odd) names on POSIX: they may be accepted,
+        # but must stay harmless (nothing outside the root read or created)
+        bs = "\\"
+        odd = [".." + bs + "outside" + bs + "secret.fb",
+               bs + str(outside / "secret.fb")[1:].replace("/", bs),
+               "train" + bs + ".." + bs + ".." + bs + "outside" + bs + "secret.fb"]
+        odd_lists = [".." + bs + "outside" + bs + "shards_list.json",
+                     bs + str(outside / "shards_list.json")[1:].replace("/", bs),
+                     ".." + bs + "escaped" + bs + "shards_list.json"]
         hostile_lists = ["../outside/shards_list.json",
                          str(outside / "shards_list.json"),
                          "../dataset_v2/shards_list.json",
@@ -877,7 +972,7 @@ def check_paths(ctx):
             builtins.open = h_open
             io.open = h_open
             try:
-                for h in hostile:
+                for h in hostile + odd:
                     n_eval += 1
                     doc = json.loads(orig)
                     doc["shard_files"][0]["file_infos"][0]["file_path"] = h
@@ -898,7 +993,7 @@ def check_paths(ctx):
                                    hostile_path=h, opened=opened[:3])
                         break
                 listp.write_text(orig)
-                for h in hostile_lists:
+                for h in hostile_lists + odd_lists:
                     if bad:
                         break
                     n_eval += 1
@@ -936,6 +1031,32 @@ def check_paths(ctx):
                 io.open = o_ioopen
                 listp.write_text(orig)
                 infop.write_text(orig_info)
+        # (2b) a list document whose own relative_path_self is hostile / odd:
+        # continuing to write must not create anything outside the root
+        if not bad:
+            for h in hostile_lists + odd_lists:
+                n_eval += 1
+                doc = json.loads(orig)
+                doc["relative_path_self"] = h
+                listp.write_text(json.dumps(doc))
+                before = {str(p) for p in tmp.rglob("*")}
+                try:
+                    with Dataset(root).filler() as f:
+                        f.write_example(values=C.example(77), split="train")
+                except Exception:  # noqa: BLE001
+                    pass
+                created = [p for p in ({str(p) for p in tmp.rglob("*")} -
+                                       before)
+                           if not p.startswith(str(root) + os.sep)]
+                # restore the dataset for the next round
+                shutil.rmtree(root)
+                shutil.copytree(backup, root)
+                if created:
+                    bad = dict(what="continuing a dataset whose list names "
+                               "itself by a hostile path created files "
+                               "outside the root", relative_path_self=h,
+                               created=created[:3])
+                    break
         # (3) writer sub-directory option
         if not bad:
             for h in ["../escape", str(outside / "w"), "a/../../escape",
@@ -961,7 +1082,9 @@ def check_paths(ctx):
         "sub-directory: rejected or harmless; no file outside the root is "
         "opened or created", bad is None, function="no_directory_traversal",
         evaluations=n_eval, witness=bad,
-        bound="9 hostile shard paths, 4 hostile list paths, 5 writer options")]
+        bound="11 hostile + 3 odd (backslash) shard paths, 4 hostile + 3 odd "
+              "list paths (also as a list's own relative_path_self, then "
+              "continued writing), 5 writer options")]
 
 
 # --------------------------------------------------------------------------
